@@ -27,6 +27,7 @@ ASSUMPTIONS = [
     "which filter types exist for a group is computed from the character formula (gv.ref.core.burnside), independently of the library's bank",
     "configurations for which a residual sum or skip concatenation would meet different type sets are not generated (the architecture cannot be evaluated there)",
 ]
+CLEAR_CACHES_EVERY = 12
 CONFIG = {
     "quick": {"examples": 128, "shards": 16, "shrink_s": 60, "time_budget_s": 280},
     "thorough": {"examples": 2400, "shards": 16, "shrink_s": 240, "time_budget_s": 1500},
